@@ -176,3 +176,48 @@ func H_C11_Limits() {
 	_, aerr3 := mv.Add("", small)
 	nd.Assert(aerr3 != nil, "limits/add-empty-key-rejected")
 }
+
+// H_C11_SizeLimit: the 65,535-byte total: 128 pairs with concrete distinct keys and lengths chosen so that the payload is 65,533..65,537 bytes (last value symbolic): accepted and round-tripping up to 65,535, rejected (not truncated, not wrapped) above.
+//
+//verif:props C11
+//verif:witness accepted rejected
+//verif:steps 600000000
+//verif:loopcap 200000
+func H_C11_SizeLimit() {
+	total := 65533 + nd.IntRange(0, 4)
+	m := map[string]string{}
+	sum := 0
+	for i := 0; i < 127; i++ {
+		k := make([]byte, 255)
+		for j := range k {
+			k[j] = 'a'
+		}
+		k[0], k[1] = byte('A'+i/26), byte('a'+i%26)
+		v := make([]byte, 255)
+		m[string(k)] = string(v)
+		sum += 255 + 255 + 4
+	}
+	rest := total - sum - 4 // key+value bytes of the last pair
+	lastK := "zz"
+	lastV := nd.String(rest - len(lastK))
+	m[lastK] = lastV
+	mp, err := data.GoMapToMapping(m)
+	if total > 65535 {
+		nd.Cover("rejected")
+		nd.Assert(err != nil && mp == nil, "sizelimit/over-65535-rejected")
+		return
+	}
+	nd.Assert(err == nil && mp != nil, "sizelimit/up-to-65535-accepted")
+	if err != nil || mp == nil {
+		return
+	}
+	nd.Cover("accepted")
+	out := mp.Data()
+	nd.Assert(len(out) == total+2 && int(be(out[:2])) == total, "sizelimit/size-field-equals-bytes-that-follow")
+	back, rem, errs := data.ReadMapping(out)
+	nd.Assert(len(errs) == 0 && len(rem) == 0, "sizelimit/reparses")
+	if len(errs) == 0 {
+		g, gerr := back.ToGoMap()
+		nd.Assert(gerr == nil && len(g) == 128 && g[lastK] == lastV, "sizelimit/same-map")
+	}
+}
